@@ -3,6 +3,7 @@ CONSTANT N = 4
 CONSTANT CheckMDC = TRUE
 CONSTANT CheckPrefix = TRUE
 CONSTANT CheckKey = FALSE
+CONSTANT AcceptSED = FALSE
 INVARIANT Integrity
 INVARIANT WrongKeyRaises
 INVARIANT UntouchedDecrypts
